@@ -21,7 +21,9 @@ RULE = ('elevation rasters 1x1 .. 7x7 (plus large-ish ones up to 24x24 quick / 6
         'negative-stride layouts, dimension names y,x / lat,lon / row,col / x,y) of every dtype uint8..uint64/int8..int64/float16/float32/float64 from the classes flat, ramps, '
         'small integers with ties, random floats, values >= 2^24, NaN/+-inf cells; cell size from res = scalar / (x,y) tuple / '
         'list / ndarray / unusable / absent with ascending or descending, integer or fractional coordinates, cx != cy; '
-        'hillshade azimuth/altitude grids incl. negative, > 360, random reals and the defaults left unset, name= given; cell sizes 1e-6 .. 1e5, '
+        'call sequences (NumPy and Dask): a raster with coordinates and no res attribute is analysed, then rasters derived from that object '
+        '(strided / reversed slices, assign_coords with rescaled coordinates, copy) — each must follow its OWN coordinates, equal a freshly '
+        'built raster, and leave its input\'s attrs unchanged; hillshade azimuth/altitude grids incl. negative, > 360, random reals and the defaults left unset, name= given; cell sizes 1e-6 .. 1e5, '
         'uneven coordinates (mean spacing); the same stream Dask-backed (every dtype x single chunk / 1-cell chunks / uneven '
         'chunks, results computed and compared exactly like the NumPy ones; groups of 12 lazy results — four functions x '
         '(raster, same raster with another cell size / other angles, poked raster) — evaluated in ONE dask.compute); plus, on the implementation, the property\'s metamorphic checks: constant offset, '
@@ -458,6 +460,14 @@ def make_agg(case, data=None):
         a = big[::2, ::2]
     elif lay == 'neg' and rows and cols:           # negative strides
         a = a[::-1, ::-1].copy()[::-1, ::-1]
+    elif lay == 'T':                               # transposed view of the transposed data
+        a = np.ascontiguousarray(a.T).T
+    elif lay == 'strided23' and rows and cols:     # a[::2, ::3] of a larger array
+        big = np.zeros((2 * rows, 3 * cols), dtype=a.dtype)
+        big[::2, ::3] = a
+        a = big[::2, ::3]
+    elif lay == 'ro':                              # non-writeable
+        a.setflags(write=False)
     if case.get('chunks') is not None:
         a = wrap_dask(a, case['chunks'])
     return xr.DataArray(a, dims=[ydim, xdim], coords=coords, attrs=attrs, name='terrain')
@@ -579,8 +589,8 @@ def compare_model(ctx, pending):
 # ---------------------------------------------------------------- running the implementation
 def run_fn(m, fn, agg, params=None):
     kw = {}
-    if params and params.get('name'):
-        kw['name'] = params['name']
+    if params and 'name' in params:
+        kw['name'] = params['name']                # also the falsy names None and ''
     with np.errstate(all='ignore'):
         if fn == 'slope':
             res = m['slope'].slope(agg, **kw)
@@ -592,7 +602,7 @@ def run_fn(m, fn, agg, params=None):
             res = m['hillshade'].hillshade(agg, **kw)           # azimuth=225, angle_altitude=25 left at their defaults
         else:
             res = m['hillshade'].hillshade(agg, azimuth=params['azimuth'], angle_altitude=params['altitude'], **kw)
-    if kw and res.name != kw['name']:
+    if kw and res.name != kw['name'] and not (kw['name'] in (None, '') and res.name in (None, '')):
         raise AssertionError('%s: result is named %r, asked for %r' % (fn, res.name, kw['name']))
     return res
 
@@ -613,6 +623,74 @@ def draw_angles(rng):
     if rng.random() < 0.15:
         p['name'] = 'out_%d' % rng.randint(0, 9)
     return p
+
+
+def theme_cases(rng, quick=True):
+    """appended stream (theme audit): layouts, magnitudes, numpy-scalar / falsy parameters, extreme coordinates, degenerate content"""
+    out = []
+
+    def mk(dt, data, res=None, xs=None, ys=None, **kw):
+        rows, cols = len(data), len(data[0])
+        c = dict(dtype=dt, kind=kw.pop('kind', 'theme'), data=data, res=res or dict(kind='pair', v=[2.0, 0.5], form='tuple'),
+                 xs=xs or list(range(cols)), ys=ys or list(range(rows)), coords=xs is not None, dims=['y', 'x'],
+                 params=kw.pop('params', dict(azimuth=225, altitude=25)))
+        c.update(kw)
+        c['exact'] = is_exact_class(c)
+        return c
+    base = [[float(rng.randint(0, 50)) + rng.choice([0.0, 0.5, 0.25]) for _ in range(6)] for _ in range(5)]
+    ibase = [[rng.randint(0, 200) for _ in range(6)] for _ in range(5)]
+    # 1. memory layouts of the elevation array
+    for lay in ['F', 'T', 'strided23', 'neg', 'view', 'ro']:
+        out.append(mk('float64', base, layout=lay, kind='layout-' + lay))
+    for lay in (['T', 'strided23'] if quick else ['F', 'T', 'strided23', 'neg', 'view', 'ro']):
+        out.append(mk('int32', ibase, layout=lay, kind='layout-' + lay))
+        out.append(mk('float32', base, layout=lay, kind='layout-' + lay, chunks=[[2, 3], [1, 5]]))
+    # 2. magnitudes: elevations times 2^k; cell sizes likewise
+    for k in ([-100, -30, 60, 100] if quick else [-120, -100, -60, -30, 30, 60, 100, 120]):
+        dt = 'float64' if k % 40 else 'float32'
+        out.append(mk(dt, [[v * 2.0 ** k for v in r] for r in base], kind='magnitude 2^%d' % k))
+    out.append(mk('float64', base, res=dict(kind='pair', v=[2.0 ** -40, 2.0 ** 30], form='tuple'), kind='cellsize-extreme'))
+    #    numpy scalars for the angles, falsy names
+    out.append(mk('float64', base, params=dict(azimuth=np.int64(225), altitude=np.float64(25.0)), kind='numpy-scalar-angles'))
+    out.append(mk('int16', ibase, params=dict(azimuth=0, altitude=0, name=None), kind='falsy'))
+    out.append(mk('float32', base, params=dict(azimuth=0.0, altitude=0.0, name=''), kind='falsy'))
+    # 6. coordinates: huge spacing, negative origin, descending, fractional, x != y
+    out.append(mk('float64', base, res=dict(kind='absent'), xs=[-2e6 + i * 1e6 for i in range(6)], ys=[7.25 - i * 0.125 for i in range(5)],
+                  kind='coords-extreme'))
+    out.append(mk('int32', ibase, res=dict(kind='absent'), xs=[1e6 - i * 30.0 for i in range(6)], ys=[-1e6 + i * 1e6 for i in range(5)],
+                  kind='coords-extreme', chunks=[[1, 4], [3, 3]]))
+    # 7. degenerate content: all NaN, a single valid cell, all equal
+    nan = float('nan')
+    out.append(mk('float64', [[nan] * 4 for _ in range(4)], kind='all-nan'))
+    one = [[nan] * 5 for _ in range(5)]
+    one[2][2] = 7.0
+    out.append(mk('float32', one, kind='single-valid'))
+    out.append(mk('float64', [[nan] * 4 for _ in range(4)], kind='all-nan', chunks=[1, 1]))
+    out.append(mk('uint8', [[9] * 4 for _ in range(3)], kind='all-equal'))
+    return out
+
+
+def run_lazy_after(ctx, m, consts, rng, pending):
+    """lazy Dask results that are computed only AFTER other library calls (other rasters, other parameters, NumPy and Dask)"""
+    c = new_case(rng, dt=rng.choice(['float32', 'int16', 'float64']), shape=(5, 6), kind='small')
+    c.pop('layout', None)
+    c['chunks'] = [[2, 3], [1, 2, 3]]
+    c['params'] = dict(azimuth=100, altitude=45)
+    agg = make_agg(c)
+    lazies = [(fn, run_fn(m, fn, agg, c['params'])) for fn in FNS]
+    other = new_case(rng, dt='float64', shape=(4, 4), kind='ramp')
+    other.pop('layout', None)
+    for ch in (None, [1, 1]):
+        o = dict(other, chunks=ch, params=dict(azimuth=0, altitude=90))
+        for fn in FNS:
+            np.asarray(run_fn(m, fn, make_agg(o), o['params']).data)
+    for fn, lz in lazies:
+        out = to_lists(lz.data)
+        n0 = len(ctx.violations)
+        oracle_raster(ctx, c, fn, out, c['params'])
+        for v in ctx.violations[n0:]:
+            v['what'] = '[lazy Dask result computed after other library calls] ' + v['what']
+        pending.append((model_line(c, fn, consts, c['params']), [x for r in out for x in r], dict(c, lazy_after=True), fn, c['params']))
 
 
 def eq_out(a, b):
@@ -794,6 +872,84 @@ def run_together(ctx, m, consts, case, pending):
         pending.append((model_line(v, fn, consts, v['params']), [c for r in out for c in r], dict(v, together=True), fn, v['params']))
 
 
+def run_sequence(ctx, m, consts, base, pending):
+    """call SEQUENCES: a raster with coordinates and no `res` attribute is analysed, then rasters DERIVED from that very object
+    (strided / reversed slices, assign_coords with rescaled coordinates, .copy()) are analysed. Each derived result must be the
+    documented formula with the cell size of ITS OWN coordinates, must equal the result on a freshly constructed raster with the
+    same data and coordinates, and no call may change the attrs of its input"""
+    ydim, xdim = base.get('dims') or ['y', 'x']
+    params = dict(azimuth=225, altitude=25)
+    full = make_agg(base)
+    snap = dict(full.attrs)
+
+    def sub(case, rs, cs, xs=None, ys=None):
+        data = [list(r[cs]) for r in case['data'][rs]]
+        return dict(case, data=data, xs=list(case['xs'][cs]) if xs is None else xs, ys=list(case['ys'][rs]) if ys is None else ys,
+                    chunks=None if case.get('chunks') is None else [len(data), len(data[0])])
+
+    def check(label, arr, case_d, fresh_too=True):
+        case_d = dict(case_d, exact=is_exact_class(case_d))
+        before = dict(arr.attrs)
+        data0 = np.array(np.asarray(arr.data), copy=True)
+        coords0 = {d: np.array(arr[d].values, copy=True) for d in arr.dims}
+        for fn in FNS:
+            rep = dict(base, sequence=True, step=label, fn=fn)
+            try:
+                out = to_lists(run_fn(m, fn, arr, params).data)
+            except Exception as e:
+                ctx.violation('oracle', '[call sequence, %s] %s raised %s: %s' % (label, fn, type(e).__name__, e), rep)
+                return False
+            if dict(arr.attrs) != before:
+                ctx.violation('oracle', '[call sequence, %s] %s changed the attrs of its input raster: %r -> %r' % (
+                    label, fn, before, dict(arr.attrs)), rep)
+                return False
+            if not np.array_equal(np.asarray(arr.data), data0, equal_nan=data0.dtype.kind == 'f') or \
+                    any(not np.array_equal(np.asarray(arr[d].values), cv) for d, cv in coords0.items()):
+                ctx.violation('oracle', '[call sequence, %s] %s changed the data / coordinates of its input raster' % (label, fn), rep)
+                return False
+            n0 = len(ctx.violations)
+            oracle_raster(ctx, case_d, fn, out, params)
+            if fresh_too:
+                ref = to_lists(run_fn(m, fn, make_agg(case_d), params).data)
+                bad = [(y, x) for y, (ra, rb) in enumerate(zip(out, ref)) for x, (a, b) in enumerate(zip(ra, rb)) if not eq_out(a, b)]
+                if bad and len(ctx.violations) == n0:
+                    y, x = bad[0]
+                    ctx.violation('oracle', '%s: cell (%d,%d) is %r but the same call on a freshly built raster with the same data and '
+                                  'coordinates gives %r' % (fn, y, x, out[y][x], ref[y][x]), rep)
+            for v in ctx.violations[n0:]:
+                if not v['what'].startswith('[call sequence'):
+                    v['what'] = '[call sequence, %s, after the parent raster was analysed] %s' % (label, v['what'])
+                v['replay'] = rep
+            if len(ctx.violations) > n0:
+                return False
+            pending.append((model_line(case_d, fn, consts, params), [c for r in out for c in r], dict(case_d, sequence=label), fn, params))
+        return True
+
+    if not check('first call on the raster', full, base, fresh_too=False):
+        return
+    if dict(full.attrs) != snap:
+        ctx.violation('oracle', '[call sequence] the raster\'s attrs changed from %r to %r' % (snap, dict(full.attrs)), dict(base, sequence=True))
+        return
+    rows, cols = len(base['data']), len(base['data'][0])
+    steps = [
+        ('full[::2, ::3]', lambda: full[::2, ::3], sub(base, slice(None, None, 2), slice(None, None, 3))),
+        ('full[::-1, ::-1]', lambda: full[::-1, ::-1], sub(base, slice(None, None, -1), slice(None, None, -1))),
+        ('full[1:, :-1][::2, ::2]', lambda: full[1:, :-1][::2, ::2], sub(sub(base, slice(1, None), slice(None, -1)),
+                                                                         slice(None, None, 2), slice(None, None, 2))),
+        ('assign_coords(rescaled)', lambda: full.assign_coords({ydim: np.array(base['ys']) * 1000.0, xdim: np.array(base['xs']) * 0.5}),
+         sub(base, slice(None), slice(None), xs=[float(v) * 0.5 for v in base['xs']], ys=[float(v) * 1000.0 for v in base['ys']])),
+        ('copy()', lambda: full.copy(), sub(base, slice(None), slice(None))),
+        ('astype(float32)[::2, ::2]', lambda: full.astype('float32')[::2, ::2],
+         dict(sub(base, slice(None, None, 2), slice(None, None, 2)), dtype='float32')),
+        ('copy()[::3, ::2]', lambda: full.copy()[::3, ::2], sub(base, slice(None, None, 3), slice(None, None, 2))),
+    ]
+    for label, mk, case_d in steps:
+        if not check(label, mk(), case_d):
+            return
+    # the parent again, after its children were analysed
+    check('the parent raster again', full, base)
+
+
 def new_case(rng, **kw):
     dt, kind, data = gen_raster(rng, **kw)
     rows = len(data)
@@ -859,6 +1015,32 @@ def run(ctx, model=True):
         ctx.case(dict(c, together=True))
         ctx.count('dask-together:%s/%s' % (c['dtype'], c['kind']))
         run_together(ctx, m, consts, c, pending)
+    # ---- appended stream: call sequences on derived rasters (rng draws of the streams above are unchanged) ----
+    seq = [('float64', None), ('int32', None), ('float32', 'dask')]
+    if not ctx.quick():
+        seq = seq * 15 + [(dt, b) for dt in INT_DT for b in (None, 'dask')]
+    for dt, backend in seq:
+        rows_, cols_ = rng.randint(7, 9), rng.randint(7, 10)
+        c = new_case(rng, dt=dt, shape=(rows_, cols_), kind=rng.choice(['small', 'ramp', 'ties'] + ([] if dt.startswith('int') else ['frac', 'rand'])))
+        dx, dy = rng.choice([1.0, 0.5, 2.0, 30.0, 0.25, 3.0]), rng.choice([1.0, 0.5, 2.0, 30.0, 0.25, 10.0])
+        c['res'] = dict(kind='absent')
+        c['coords'] = True
+        c['xs'] = [rng.choice([0.0, 5.0, -3.0]) + i * dx for i in range(cols_)]
+        c['ys'] = [rng.choice([0.0, 7.0, 100.0]) + i * dy for i in range(rows_)][::rng.choice([1, -1])]
+        c.pop('layout', None)
+        c['chunks'] = gen_chunks(rng, rows_, cols_, rng.choice(styles)) if backend == 'dask' else None
+        c['exact'] = is_exact_class(c)
+        ctx.case(dict(c, sequence=True))
+        ctx.count('call-sequence:%s%s' % ('dask:' if backend else '', dt))
+        run_sequence(ctx, m, consts, c, pending)
+    # ---- appended stream: theme audit (layouts, magnitudes, parameters, coordinates, degenerate content, lazy-after) ----
+    for c in theme_cases(rng, ctx.quick()):
+        ctx.case(c)
+        ctx.count('theme:%s%s/%s' % ('dask:' if c.get('chunks') is not None else '', c['dtype'], c['kind']))
+        run_case(ctx, m, consts, c, pending, meta=False)
+    for _ in range(1 if ctx.quick() else 40):
+        ctx.count('theme:lazy-after-other-calls')
+        run_lazy_after(ctx, m, consts, rng, pending)
     if model:
         compare_model(ctx, pending)
     ctx.exhaustive = False
@@ -892,6 +1074,11 @@ def replay_case(ctx, case):
         case.pop('params', None)
     ctx.case(case)
     pending = []
+    if case.pop('sequence', None):
+        case.pop('step', None)
+        run_sequence(ctx, m, consts, case, pending)
+        compare_model(ctx, pending[:40])
+        return
     if case.pop('together', None):
         for _ in range(6):
             run_together(ctx, m, consts, dict(case), pending)
